@@ -252,6 +252,25 @@ func (p *Program) GenFunc(fc *FuncContract, prop string) (res *FuncResult) {
 		names[prm.Name()] = v
 		inputs = append(inputs, mvs...)
 	}
+	// ghost lists (empty on entry) and receive histories of channel parameters (nothing received on entry)
+	ex.ghostLists = map[string]*Cell{}
+	ex.chanHist = map[ssa.Value]*Cell{}
+	emptySlice := func(s *Sort) Term { return vc.zeroTerm(s) }
+	for _, gl := range fc.GhostLists {
+		srt := vc.sortByName(gl[1])
+		c := ex.newCell("ghost_"+gl[0], srt, nil)
+		st[c] = emptySlice(srt)
+		ex.ghostLists[gl[0]] = c
+	}
+	for _, prm := range fn.Params {
+		if ct, ok := prm.Type().Underlying().(*types.Chan); ok {
+			srt := vc.SliceSortOf(vc.SortOf(ct.Elem()))
+			c := ex.newCell("recv_"+prm.Name(), srt, nil)
+			st[c] = emptySlice(srt)
+			ex.chanHist[prm] = c
+			ex.ghostLists["recv_"+prm.Name()] = c
+		}
+	}
 	// ghost views
 	ex.views = map[string]*viewCells{}
 	for _, gv := range fc.Views {
